@@ -22,7 +22,7 @@ func VH_C07_NewSolar() {
 // C07-H2: NewLunar (and NewTao / NewFoto) accept exactly the (month, day) pairs of year Y's own table.
 func VH_C07_NewLunar() {
 	Y := vParam("Y")
-	mo, dy := vInt("mo", -14, 14), vInt("dy", -2, 33)
+	mo, dy := vParam("MO"), vInt("dy", -2, 33)
 	h, mi, s := vInt("h", -1, 24), vInt("mi", -1, 60), vInt("s", -1, 60)
 	// spec from the table
 	valid := false
